@@ -291,6 +291,8 @@ pub struct Obs {
     pub non_current_signature: bool,
     pub buffered: u32,
     pub mislabelled_accepted: u32,
+    /// open messages whose deadline the harness moved into the past while they were not certified
+    pub expired: BTreeSet<String>,
     /// a submission under a name not registered for the entity's epoch went into the buffer
     pub buffered_unregistered_name: bool,
     /// entities for which a row under a name other than its producer's was seen
@@ -552,6 +554,7 @@ impl Run {
                     let t = cands[vcore::pick_index(*i, cands.len())].clone();
                     if self.node().expire(&t).await.unwrap_or(false) {
                         self.label("expire:done");
+                        self.obs.expired.insert(tkey(&t));
                     }
                 }
             }
@@ -1054,6 +1057,14 @@ impl Run {
         let t = c.signed_entity_type();
         if self.obs.certs.iter().any(|p| !p.is_genesis() && p.signed_entity_type() == t) {
             if self.violate("I4-entity-certified-twice", format!("{id}: a certificate for {t:?} already exists")) {
+                return;
+            }
+        }
+
+        // ---- I6 (documented behaviour of expiration, not part of the statement's wording): an open message whose
+        // deadline passed before it was certified is abandoned, never sealed later
+        if self.obs.expired.contains(&tkey(&t)) {
+            if self.violate("I6-expired-message-certified", format!("{id}: sealed although its open message had expired uncertified")) {
                 return;
             }
         }
